@@ -216,3 +216,45 @@ Qed.
 Lemma tw_same s s' c f : toks s' = toks s -> s'.(futs) = s.(futs) ->
   np (is_unpark c) s' = np (is_unpark c) s -> np (is_wake (WTask c)) s' = np (is_wake (WTask c)) s -> tw s' c f = tw s c f.
 Proof. intros H1 H2 H3 H4. unfold tw. by rewrite (tokb_toks s s' c H1), H3, H4, (getf_futs s' s f H2). Qed.
+
+Lemma cell_tw s c f : cell s c f -> tw s c f = true.
+Proof. intros [H1 H2]. unfold tw. rewrite H1, H2, !bool_decide_true by done. by rewrite orb_true_r. Qed.
+Lemma wf_in_range s c st fr f : Inv_fut s -> stacks s !! c = Some st -> fr ∈ st -> wf f fr = true -> f < length s.(futs).
+Proof.
+  intros HF Hc Hin Hw. destruct (decide (f < length (futs s))) as [|Hge]; [done|]. exfalso.
+  pose proof (tot_pos s c st fr f Hc Hin Hw). pose proof (if_fresh _ HF f ltac:(lia)). lia.
+Qed.
+Lemma cell_store s f c : f < length s.(futs) -> (getf s f).(res) = FNone ->
+  cell (setf s f (getf s f <| fwaker := Some (WTask c) |>)) c f.
+Proof. intros Hf Hr. unfold cell. rewrite getf_setf_eq by done. cbn. done. Qed.
+Lemma cell_futs (s1 s2 : state) c f : s1.(futs) = s2.(futs) -> cell s2 c f -> cell s1 c f.
+Proof. intros H. unfold cell. by rewrite (getf_futs s1 s2 f H). Qed.
+Lemma np_two P s a c sa sc : a <> c -> stacks s !! a = Some sa -> stacks s !! c = Some sc -> cntf P sa >= 1 -> cntf P sc >= 1 -> np P s >= 2.
+Proof.
+  intros Hne Ha Hc H1 H2. pose proof (npl_insert P (stacks s) a sa [] Ha) as H. cbn in H.
+  assert (Hc' : <[a := []]> (stacks s) !! c = Some sc) by (by rewrite list_lookup_insert_ne).
+  pose proof (npl_ge P _ _ _ Hc'). unfold np. lia.
+Qed.
+(* two different actors cannot both be consumers of the same future *)
+Lemma two_consumers s a c sa sc f : Inv_fut s -> a <> c -> stacks s !! a = Some sa -> stacks s !! c = Some sc ->
+  cntf (wf f) sa >= 1 -> cntf (wf f) sc >= 1 -> False.
+Proof.
+  intros HF Hne Ha Hc H1 H2. pose proof (np_two (wf f) s a c sa sc Hne Ha Hc H1 H2). pose proof (if_one _ HF f). unfold tot in *. lia.
+Qed.
+Lemma awaits_wf s c f : awaits s c f -> exists st, stacks s !! c = Some st /\ cntf (wf f) st >= 1.
+Proof.
+  intros (st & Hc & Hin). exists st. split; [done|]. assert (cntf (wf f) st > 0); [|lia]. apply cntf_pos.
+  destruct Hin as [Hin|Hin]; [exists (FAwRet f)|exists (FPark f)]; (split; [done|cbn; by apply bool_decide_eq_true]).
+Qed.
+(* the stack of a poller: the top poll frame for f sits on a consumer frame for f *)
+Lemma poller_wf x rest f : pollall (x :: rest) = true -> pollfam x = Some f -> cntf (wf f) (x :: rest) >= 1.
+Proof.
+  cbn. intros [H _]%andb_true_iff Hf. unfold adjok in H. rewrite Hf in H. destruct rest as [|y r]; [done|].
+  assert (wf f y = true) by (destruct y; try done). cbn. rewrite H0. destruct (wf f x); lia.
+Qed.
+Lemma aw_in_rest_absurd s a fr rest f : Inv_op s -> stacks s !! a = Some (fr :: rest) -> opfr fr = true ->
+  FAwRet f ∈ rest \/ FPark f ∈ rest -> False.
+Proof.
+  intros HP Ha Ho Hin. pose proof (op_top_only s a fr rest HP Ha Ho) as Hz.
+  destruct Hin as [Hin|Hin]; pose proof (cntf_zero_all opfr rest Hz _ Hin) as H; done.
+Qed.
